@@ -154,7 +154,40 @@ def meta_guards():
         rt = load.find_method(m, cname, "render_to_output")[2]
         binds = [flow.dotted(i.test) for i in ast.walk(rt) if isinstance(i, ast.If) and "self.var" in flow.dotted(i.test)]
         obs.append(flow.ob(f"{cname}.partial_scope:the-bound-variable-name-is-in-scope-only-when-a-variable-is-bound", ok and bool(binds), f"appends guarded by self.var: {ok}; render binds under {binds[:2]}", replay_schema="code", replay_extra={"code": REPLAY_GUARD}))
+        # a partial is visited once per KEY: two tags that put different names in the partial's scope
+        # must not share a key, so the key is computed from the whole in-scope list (arguments AND the
+        # bound variable's name), not from part of it
+        for call in flow.calls(ps):
+            if flow.dotted(call.func) != "Partial":
+                continue
+            kexpr = flow.kwarg(call, "key")
+            sexpr = flow.kwarg(call, "in_scope")
+            if kexpr is None:
+                continue   # no key: visited every time
+            def deps(e, seen=()):
+                names = {n_.id for n_ in ast.walk(e) if isinstance(n_, ast.Name)}
+                out = set(names)
+                for st_ in ast.walk(ps):
+                    if isinstance(st_, ast.Assign) and any(isinstance(t, ast.Name) and t.id in names and t.id not in seen for t in st_.targets):
+                        out |= deps(st_.value, tuple(seen) + tuple(names))
+                return out
+            scope_var = sexpr.id if isinstance(sexpr, ast.Name) else None
+            obs.append(flow.ob(f"{cname}.partial_scope:the-visit-key-is-computed-from-every-name-put-in-scope", scope_var is not None and scope_var in deps(kexpr), f"key = {ast.unparse(kexpr)[:80]} depends on {sorted(deps(kexpr))}; in_scope = {ast.unparse(sexpr) if sexpr is not None else None}", replay_schema="code", replay_extra={"code": REPLAY_KEY}))
     return obs
+
+
+REPLAY_KEY = r'''
+def run(m):
+    import asyncio
+    from liquid import Environment, DictLoader
+    e = Environment(loader=DictLoader({"p": "{{ x }}{{ y }}"}))
+    t = e.from_string("{% render 'p' with a as x %}{% render 'p' with a as y %}")
+    bad = []
+    for an in (t.analyze(), asyncio.run(t.analyze_async())):
+        if not {"a", "x", "y"} <= set(an.globals):
+            bad.append(sorted(an.globals))
+    return {"violated": bool(bad), "observed": bad, "witness": "second-render-with-another-bound-name-not-visited"}
+'''
 
 
 @structural("C19", "traversal-shape")
